@@ -168,7 +168,16 @@ def _vlift(a):
 
 
 class ObjArray(np.ndarray):
-    """Object array of symbolic scalars: astype(float) is the identity (values stay terms)."""
+    """Object array of symbolic scalars: astype(float) is the identity (values stay terms).
+    Carries the dtype and the rounding-operation count of the Variable it is a view of."""
+
+    _src_rnd = None
+    _src_dtype = None
+
+    def __array_finalize__(self, obj):
+        if obj is not None:
+            self._src_rnd = getattr(obj, '_src_rnd', None)
+            self._src_dtype = getattr(obj, '_src_dtype', None)
 
     def astype(self, dtype, *a, **k):
         try:
@@ -299,7 +308,10 @@ class Variable:
     # ---------------------------------------------------------------- values
     @property
     def values(self):
-        return self._a.view(ObjArray)
+        out = self._a.view(ObjArray)
+        out._src_rnd = self._rnd
+        out._src_dtype = self._dtype.name if self._dtype is not None else None
+        return out
 
     @values.setter
     def values(self, v):
